@@ -290,15 +290,17 @@ theorem cacheGet_run (key : String) (args : List Obj) (st : St) :
 def bodyState (s : St) (nenv : Nat) : St := { s with cur := nenv, outs := [] :: s.outs }
 
 /-- a call that completes without moving the CALLER's miss counter was a cache hit, or failed while
-binding its arguments, or evaluated its body without moving the CALLEE's miss counter -/
-theorem applyFunction_quiet (fuel : Nat) (f : FuncVal) (args : List Obj) (st : St) (v : Obj)
+binding its arguments, or evaluated its body without moving the CALLEE's miss counter — which is 0 after the
+body: binding the parameters made no miss either (`before` is 0, not the counter read after the binding) -/
+theorem applyFunction_quiet_full (fuel : Nat) (f : FuncVal) (args : List Obj) (st : St) (v : Obj)
     (hok : outcome (applyFunction (fuel + 1) (.func f) args) st = .ok v)
     (hq : Quiet st.cur (applyFunction (fuel + 1) (.func f) args) st) :
     (∃ out, outcome (cacheGet f.key args) st = .ok (some (v, out))) ∨
     (outcome (extendFunctionEnv f args) st = .ok (.error v)) ∨
     (∃ nenv, outcome (extendFunctionEnv f args) st = .ok (.ok nenv) ∧
       outcome (eval fuel f.body) (bodyState (stateAfter (extendFunctionEnv f args) st) nenv) = .ok v ∧
-      Quiet nenv (eval fuel f.body) (bodyState (stateAfter (extendFunctionEnv f args) st) nenv)) := by
+      Quiet nenv (eval fuel f.body) (bodyState (stateAfter (extendFunctionEnv f args) st) nenv) ∧
+      missOf (stateAfter (eval fuel f.body) (bodyState (stateAfter (extendFunctionEnv f args) st) nenv)) nenv = 0) := by
   obtain ⟨r, hr⟩ := cacheGet_run f.key args st
   have hO : ∀ {α} (x : M α) (s : St), outcome x s = (run x s).1 := fun _ _ => rfl
   have hS : ∀ {α} (x : M α) (s : St), stateAfter x s = (run x s).2 := fun _ _ => rfl
@@ -356,12 +358,6 @@ theorem applyFunction_quiet (fuel : Nat) (f : FuncVal) (args : List Obj) (st : S
           (.ok ⟨⟩, bodyState sE nenv) := rfl
       rw [hmod] at hok hq
       dsimp only at hok hq
-      rw [run_bind, run_getFrame] at hok hq
-      cases hf0 : (bodyState sE nenv).frames[nenv]? with
-      | none => rw [hf0] at hok; cases hok
-      | some fr0 =>
-      rw [hf0] at hok hq
-      dsimp only at hok hq
       rw [run_bind] at hok hq
       have htB := ((allTr fuel).eval f.body).h (bodyState sE nenv)
       rw [hS (eval fuel f.body)] at htB
@@ -392,7 +388,7 @@ theorem applyFunction_quiet (fuel : Nat) (f : FuncVal) (args : List Obj) (st : S
             | o :: rest => (chunksBytes o, rest)
             | [] => ([], [])).1 = output at hok hq
       have hfr4 : s4.frames = sB.frames := by rw [← hs4]
-      have htF := (tr_finishCall (f := f) (a := args) (c := sE.cur) (b := fr0.getMiss) (af := fr.getMiss)
+      have htF := (tr_finishCall (f := f) (a := args) (c := sE.cur) (b := 0) (af := fr.getMiss)
         (cc := fr.cantCache) (r := res) (o := output)).h s4
       rw [hS] at htF
       -- the caller's counter: st ≤ sE = body state ≤ sB = s4 ≤ final = st
@@ -402,18 +398,18 @@ theorem applyFunction_quiet (fuel : Nat) (f : FuncVal) (args : List Obj) (st : S
       have c3 := htB.miss sE.cur
       have c4 : missOf s4 sE.cur = missOf sB sE.cur := missOf_congr hfr4 _
       have c5 := htF.miss sE.cur
-      have hqF : Quiet sE.cur (finishCall f args sE.cur fr0.getMiss fr.getMiss fr.cantCache res output) s4 := by
+      have hqF : Quiet sE.cur (finishCall f args sE.cur 0 fr.getMiss fr.cantCache res output) s4 := by
         unfold Quiet
         rw [hS]
         omega
-      have hab := finishCall_quiet f args sE.cur fr0.getMiss fr.getMiss fr.cantCache res output s4 v
+      have hab := finishCall_quiet f args sE.cur 0 fr.getMiss fr.cantCache res output s4 v
         (by rw [hO]; exact hok) hqF
       have hres : v = res := by
         -- `finishCall` returns `res`
-        have : ∀ s, (∃ s', run (finishCall f args sE.cur fr0.getMiss fr.getMiss fr.cantCache res output) s = (.ok res, s')) ∨
-            (∃ e s', run (finishCall f args sE.cur fr0.getMiss fr.getMiss fr.cantCache res output) s = (.error e, s')) := by
+        have : ∀ s, (∃ s', run (finishCall f args sE.cur 0 fr.getMiss fr.cantCache res output) s = (.ok res, s')) ∨
+            (∃ e s', run (finishCall f args sE.cur 0 fr.getMiss fr.cantCache res output) s = (.error e, s')) := by
           intro s
-          cases hrf : run (finishCall f args sE.cur fr0.getMiss fr.getMiss fr.cantCache res output) s with
+          cases hrf : run (finishCall f args sE.cur 0 fr.getMiss fr.cantCache res output) s with
           | mk a s' =>
             cases a with
             | error e => exact Or.inr ⟨e, s', rfl⟩
@@ -424,10 +420,23 @@ theorem applyFunction_quiet (fuel : Nat) (f : FuncVal) (args : List Obj) (st : S
         rcases this s4 with ⟨s', h⟩ | ⟨e, s', h⟩
         · rw [h] at hok; cases hok; rfl
         · rw [h] at hok; cases hok
-      refine ⟨by rw [hres], ?_⟩
-      unfold missOf
-      rw [hf1, hf0]
-      exact hab
+      have hz : missOf sB nenv = 0 := by unfold missOf; rw [hf1]; exact hab
+      refine ⟨by rw [hres], ?_, hz⟩
+      have := htB.miss nenv
+      omega
+
+/-- a call that completes without moving the CALLER's miss counter was a cache hit, or failed while
+binding its arguments, or evaluated its body without moving the CALLEE's miss counter -/
+theorem applyFunction_quiet (fuel : Nat) (f : FuncVal) (args : List Obj) (st : St) (v : Obj)
+    (hok : outcome (applyFunction (fuel + 1) (.func f) args) st = .ok v)
+    (hq : Quiet st.cur (applyFunction (fuel + 1) (.func f) args) st) :
+    (∃ out, outcome (cacheGet f.key args) st = .ok (some (v, out))) ∨
+    (outcome (extendFunctionEnv f args) st = .ok (.error v)) ∨
+    (∃ nenv, outcome (extendFunctionEnv f args) st = .ok (.ok nenv) ∧
+      outcome (eval fuel f.body) (bodyState (stateAfter (extendFunctionEnv f args) st) nenv) = .ok v ∧
+      Quiet nenv (eval fuel f.body) (bodyState (stateAfter (extendFunctionEnv f args) st) nenv)) :=
+  (applyFunction_quiet_full fuel f args st v hok hq).imp id
+    (Or.imp id (fun ⟨nenv, h1, h2, h3, _⟩ => ⟨nenv, h1, h2, h3⟩))
 
 /-! ### reads -/
 
